@@ -48,7 +48,7 @@ CHECKS.update({
     ),
     "C05": dict(
         text="Lean 4 theorems: int4 nibble packing round trip for every list of codes incl. odd lengths (unpack_pack), packed length, little-endian round trip, and the value laws (C17.dq_q_ideal, C17.dq_q_rounded: dequantized value within half a step + explicit float32 slack; C17.cover_ideal: a constant quantized with its own min/max is in range). Independent decoder on every rewritten constant of every generated case.",
-        note="float16 cast is modelled (bit-exact correspondence) but has no theorem beyond the rounding-operator laws; 16/32/64-bit little-endian round trip proved for 8-bit storage only",
+        note="little-endian round trip proved for every whole-byte width (QProps/C05b: decode_encode, decode_encode_wrap, decodeAll_encodeAll) and the float16 bit pattern decodes to the stored value (f16Val_f16Bits); the decoder used by the oracle is an independent Python implementation",
         design="§6 C05",
     ),
     "C08": dict(
@@ -77,8 +77,8 @@ CHECKS.update({
         design="§6 C15",
     ),
     "C19": dict(
-        text="Lean 4 theorem: every single graph transformation leaves all other subgraphs literally unchanged (only opcodes/buffers are shared tables). Executed: subgraph i of quantize(multi-subgraph model) vs subgraph 0 of quantize(extracted model) with restricted statistics, structurally and by constant hashes.",
-        note="the end-to-end equality with the extracted model is exploration-level",
+        text="Lean 4 theorems: every single graph transformation leaves all other subgraphs literally unchanged (other_subgraphs_untouched); the WHOLE graph-rewriting stage is local (performer_local): for every model, instruction list and subgraph j whose operators point into the opcode table, running the performer on the model extracted around subgraph j with the instructions of j succeeds whenever the full run does and yields the same tensors, operators (opcodes resolved through the table), inputs, outputs and signatures; the hypothesis is shown necessary by a kernel-checked counterexample (hcodes_needed). Executed: subgraph i of quantize(multi-subgraph model) vs subgraph 0 of quantize(extracted model) with restricted statistics, structurally and by constant hashes.",
+        note="locality of materialisation (parameters of subgraph j computed from j's tensors and statistics only) and of instruction generation is executed, not proved; buffer contents shared across subgraphs are C15's subject",
         design="§6 C19",
     ),
 })
